@@ -5,6 +5,7 @@
    (race detector in the thorough tier); they are not proved absent. *)
 From Coq Require Import List NArith Bool Lia.
 From Regal Require Import Base.StrLit Model.LspGuards Gen.LspShape Proofs.LspGuards Model.LspCache Proofs.LspCache.
+From Regal Require Model.LspSiteGuards Proofs.LspSiteGuards.
 Import ListNotations.
 Local Open Scope nat_scope.
 
@@ -88,3 +89,17 @@ Theorem cache_values_never_written_through :
   inplace_only_fresh cache_inplace_modelled = true.
 Proof. exact cache_values_shape_lemma. Qed.
 Print Assumptions cache_values_never_written_through.
+
+(* Tie of the GUARDS to the source, re-proved on every run against the regenerated Gen/LspShape.v (go/ast extract of
+   internal/lsp/*.go): every index, slice expression and pointer dereference is paired with the conditions that
+   dominate it, and the pairs are exactly the ones the model was written from; every constant index, slice
+   expression and dereference is dominated by a length test of the indexed / sliced expression resp. a nil test of
+   the pointer (four justified exceptions, Model/LspSiteGuards.v).  A guard that is removed or whose text changes
+   in any way breaks this obligation, as does a new unguarded access.  (Whether a textually unchanged condition still
+   means the same is beyond go/ast.) *)
+Theorem guards_dominate_sites :
+  lsp_guarded_sites = Model.LspSiteGuards.modelled_guarded_sites /\
+  forallb Model.LspSiteGuards.site_guard_ok lsp_guarded_sites = true /\
+  Model.LspSiteGuards.protected_count lsp_guarded_sites = 56%nat.
+Proof. exact Proofs.LspSiteGuards.guarded_sites_match_lemma. Qed.
+Print Assumptions guards_dominate_sites.
